@@ -387,3 +387,93 @@ def flag_states(body, name, entry):
     return cur, brk, cont
   n, b, c = flow(body, set(entry))
   return n, b, c, reach
+
+
+def partial_truth(test, env):
+  """Simplify a boolean expression under `env` {name: python constant}.
+  Returns True / False, or the residual expression (an ast node) when it
+  still depends on something else."""
+  if isinstance(test, ast.Constant):
+    return bool(test.value)
+  if isinstance(test, ast.Name) and test.id in env:
+    return bool(env[test.id])
+  if isinstance(test, ast.UnaryOp) and isinstance(test.op, ast.Not):
+    v = partial_truth(test.operand, env)
+    if isinstance(v, bool):
+      return not v
+    return ast.UnaryOp(op=ast.Not(), operand=v)
+  if isinstance(test, ast.BoolOp):
+    conj = isinstance(test.op, ast.And)
+    rest = []
+    for x in test.values:
+      v = partial_truth(x, env)
+      if isinstance(v, bool):
+        if v != conj:
+          return v          # False in an and / True in an or
+        continue
+      rest.append(v)
+    if not rest:
+      return conj
+    return rest[0] if len(rest) == 1 else ast.BoolOp(op=test.op, values=rest)
+  if isinstance(test, ast.Compare) and len(test.ops) == 1:
+    names = [x.id for x in ast.walk(test) if isinstance(x, ast.Name)]
+    if names and all(n in env for n in names) and not any(
+            isinstance(x, (ast.Call, ast.Attribute, ast.Subscript))
+            for x in ast.walk(test)):
+      try:
+        return bool(eval(compile(ast.Expression(body=test), '<guard>',
+                                 'eval'), {'__builtins__': {}}, dict(env)))
+      except Exception:
+        return test
+  return test
+
+
+def return_paths(body, env, conds=()):
+  """[(return node | None for falling off the end, [(residual test text,
+  polarity)])] for the structured statements `body`, tests simplified under
+  `env`; loops are not entered (a return inside a loop is reported with the
+  loop's iterable as an extra positive condition)."""
+  out = []
+  conds = list(conds)
+  for i, s in enumerate(body):
+    if isinstance(s, ast.Return):
+      out.append((s, conds))
+      return out
+    if isinstance(s, ast.Raise):
+      return out
+    if isinstance(s, ast.If):
+      v = partial_truth(s.test, env)
+      rest = body[i + 1:]
+      if v is True:
+        return out + return_paths(list(s.body) + list(rest), env, conds)
+      if v is False:
+        return out + return_paths(list(s.orelse) + list(rest), env, conds)
+      txt = ast.unparse(v)
+      out += return_paths(list(s.body) + list(rest), env,
+                          conds + [(txt, True)])
+      out += return_paths(list(s.orelse) + list(rest), env,
+                          conds + [(txt, False)])
+      return out
+    if isinstance(s, (ast.For, ast.While)):
+      for r in ast.walk(s):
+        if isinstance(r, ast.Return):
+          out.append((r, conds + [('in loop', True)]))
+  out.append((None, conds))
+  return out
+
+
+def assign_pairs(stmt):
+  """[(target text, value node)] of an assignment, tuple assignments taken
+  element by element (`a, b = x, y` -> [('a', x), ('b', y)])."""
+  out = []
+  if not isinstance(stmt, ast.Assign):
+    return out
+  for t in stmt.targets:
+    if isinstance(t, (ast.Tuple, ast.List)) and \
+            isinstance(stmt.value, (ast.Tuple, ast.List)) and \
+            len(t.elts) == len(stmt.value.elts):
+      for a, b in zip(t.elts, stmt.value.elts):
+        out.append((ast.unparse(a), b))
+    else:
+      out.append((ast.unparse(t), stmt.value))
+  return out
